@@ -121,7 +121,7 @@ CHECKS = {
           "check_unique_method_keys, populate_interface/process_method, get_call_handles, every protocol's "
           "method_request_string, HttpBase's pattern list and match_pattern), for ALL applications, names and requests: in "
           "every application that constructs, a request naming n through any channel (XML root tag / SOAP body child, "
-          "dict-document single key, msgpack-rpc field, HttpPattern, last URL segment) runs exactly the one primary method "
+          "dict-document single key, msgpack-rpc field, HttpPattern, last URL segment; a request that names no method at all - method_request_string None, e.g. a SOAP Fault sent as the request - runs nothing and is not found) runs exactly the one primary method "
           "registered as n followed by its auxiliary methods, each once, and nothing else; a name nothing is registered under "
           "(case, prefix, suffix, another namespace) runs nothing and yields ResourceNotFound; construction succeeds under "
           "conditions that do not mention order, so every permutation of the service list constructs iff it did and routes "
@@ -257,5 +257,4 @@ NOT_APPLICABLE = {}
 
 # checks that exist but are temporarily not claimed (being reconciled with repairs of other properties)
 SUSPENDED = {'C04': 'built and merged; being reconciled with the final set of repairs in /repo (C10/C01/C02 changed code its model pins); not claimed until green again',
-             'C11': 'built and merged; being reconciled with the final set of repairs in /repo (a routing skeleton its translator matches changed); not claimed until green again',
              }
